@@ -422,6 +422,23 @@ func Corrupt(v, sub string, arg int, str string) string {
 			h := len(v) / 2
 			return v[:h] + "\n" + v[h:]
 		}
+	case "tail":
+		// other bytes, the genuine value's last sixteen bytes (where a sealed value carries its nonce): a value nobody sealed
+		raw, err := base64.RawURLEncoding.DecodeString(strings.TrimRight(v, "="))
+		if err != nil || len(raw) < 24 {
+			return Corrupt(v, "random", arg, str)
+		}
+		r := NewRng(uint64(arg) + 11)
+		n := len(raw)
+		if arg%3 == 0 {
+			n = 40 + r.Intn(200)
+		}
+		out := make([]byte, n)
+		for i := range out {
+			out[i] = byte(r.Intn(256))
+		}
+		copy(out[n-16:], raw[len(raw)-16:])
+		return base64.RawURLEncoding.EncodeToString(out)
 	case "random":
 		r := NewRng(uint64(arg) + 7)
 		n := 20 + r.Intn(200)
